@@ -146,6 +146,8 @@ def judge(m, accmode, hist, perm_seed, res, tagvar=None):
     runs = []
     for lines in (lines1, lines2):
         r = conv.convert(n, acc, opts, extra_cfg=lines)
+        if common.alloc_limit(r, res):
+            return None
         if r.sanitizer or r.signal:
             return ("crash: %s" % common.crash_head(r.err), cobj, "crash")
         runs.append(r)
